@@ -46,6 +46,15 @@ func rescale(p *curve.EdwardsPoint, rng *rand.Rand) *curve.EdwardsPoint {
 	return curve.VerifFromCoords(&x, &y, &z, &t)
 }
 
+// coordsConsistent: T*Z == X*Y for the raw extended coordinates of a result.
+func coordsConsistent(p *curve.EdwardsPoint) bool {
+	X, Y, Z, T := curve.VerifCoords(p)
+	var l, r field.Element
+	l.Mul(T, Z)
+	r.Mul(X, Y)
+	return l.Equal(&r) == 1
+}
+
 func ristFromEd(p *curve.EdwardsPoint) *curve.RistrettoPoint {
 	return curve.VerifRistrettoFromEdwards(p)
 }
